@@ -8,7 +8,7 @@ CONSTANTS
   PushKinds = {"invalidate", "message"}
   MaxPush = 2
   MaxCancel = 1
-  MaxCut = 0
+  MaxCut = 1
   UseHold = FALSE
   InvalOn = FALSE
   Eager = TRUE
@@ -23,6 +23,9 @@ CONSTANTS
   BugSkipInval = FALSE
   Dedicated = TRUE
   BugNoTrackingOff = FALSE
+  CacheChoices = {TRUE, FALSE}
+  BugLossNilNeedsCache = FALSE
+  BugUnsubWrongSub = FALSE
 VIEW MCView
 INVARIANTS TypeOK OwnRepliesInOrder NoReplyFromFuture BatchContiguousOnWire NoSpuriousError AllReturnedAtQuiesce ArgvImmutable PubSubOrder ReceiveReturn ReceiveEndsByItself HookOrder HookClosedOnce InvalidationLog LossNilOnce TrackingOffOnRelease
 CHECK_DEADLOCK FALSE
